@@ -1,7 +1,7 @@
 #!/bin/bash
 cd /verif
-for set in 1 2; do
-  if [ $set = 1 ]; then dir=/verif/neutral/set1; n=10; else dir=/verif/neutral/set2; n=12; fi
+for set in 1 2 3; do
+  dir=/verif/neutral/set$set; n=$(ls $dir/n*.diff | wc -l)
   for i in $(seq 1 $n); do
     wt=/tmp/nall-$set-$i
     git -C /repo worktree add --detach $wt HEAD >/dev/null 2>&1
